@@ -395,6 +395,62 @@ func init() {
 					shapes = append(shapes, bsh)
 				}
 			}
+			// concurrent allocation: "size measurement under a lock through one reused protocol" - handles allocated by
+			// several goroutines at once, then reported one after the other in a known order
+			{
+				G, per := 16, 6000
+				if cm.tier == "thorough" {
+					per = 60000
+				}
+				type pending struct {
+					sh   metricShape
+					kind string
+					fire func()
+				}
+				lists := make([][]pending, G)
+				var wg sync.WaitGroup
+				start := make(chan struct{})
+				for g := 0; g < G; g++ {
+					g := g
+					wg.Add(1)
+					go func() {
+						defer wg.Done()
+						<-start
+						for i := 0; i < per; i++ {
+							name := fmt.Sprintf("c%d_%d_%s", g, i, strings.Repeat("x", (g*31+i*13)%140))
+							tags := map[string]string{}
+							tsh := tagShape{List: [][2]int{}}
+							for t := 0; t < (g+i)%4; t++ {
+								k, v := fmt.Sprintf("t%d", t), strings.Repeat("v", 1+(i*3+t)%17)
+								tags[k] = v
+								tsh.Set = true
+								tsh.List = append(tsh.List, [2]int{len(k), len(v)})
+							}
+							sh := metricShape{Name: len(name), Type: 1, Count: 10, Timer: 10, Ts: 10, Tags: tsh}
+							switch (g + i) % 3 {
+							case 0:
+								h := rep.AllocateCounter(name, tags)
+								lists[g] = append(lists[g], pending{sh, "counter", func() { h.ReportCount(1) }})
+							case 1:
+								h := rep.AllocateGauge(name, tags)
+								lists[g] = append(lists[g], pending{sh, "gauge", func() { h.ReportGauge(1) }})
+							default:
+								h := rep.AllocateTimer(name, tags)
+								lists[g] = append(lists[g], pending{sh, "timer", func() { h.ReportTimer(1) }})
+							}
+						}
+					}()
+				}
+				close(start)
+				wg.Wait()
+				for g := 0; g < G; g++ {
+					for _, p := range lists[g] {
+						p.fire()
+						shapes = append(shapes, p.sh)
+						kindsOf = append(kindsOf, p.kind)
+					}
+				}
+			}
 			rep.Close()
 			col.close()
 			tally.VerifSetHook(nil, nil)
@@ -404,9 +460,15 @@ func init() {
 			if len(ch) != len(shapes) {
 				tr.Emit(M{"e": "alloc", "compact": compact, "shape": metricShape{Tags: tagShape{List: [][2]int{}}}, "kind": "counter", "charged": -1, "n": len(ch), "want": len(shapes)})
 			} else {
+				seen := map[string]bool{}
 				for i, sh := range shapes {
-					tr.Emit(M{"e": "alloc", "compact": compact, "shape": sh, "kind": kindsOf[i], "charged": ch[i]})
 					evals++
+					k := fmt.Sprintf("%s|%s|%d", metricKey(compact, sh), kindsOf[i], ch[i])
+					if seen[k] {
+						continue // same shape, same kind, same charge: one event
+					}
+					seen[k] = true
+					tr.Emit(M{"e": "alloc", "compact": compact, "shape": sh, "kind": kindsOf[i], "charged": ch[i]})
 				}
 			}
 		}
